@@ -218,6 +218,9 @@ func (b *nfBuilder) of(v ssa.Value, env nfEnv, d int) *nf {
 	case *ssa.Lookup:
 		return &nf{op: "call", name: "index", args: []*nf{b.of(x.X, env, d+1), b.of(x.Index, env, d+1)}}
 	case *ssa.Slice:
+		if al, ok := x.X.(*ssa.Alloc); ok {
+			return &nf{op: "call", name: "slice", args: []*nf{b.local(al, env, d+1)}}
+		}
 		return &nf{op: "call", name: "slice", args: []*nf{b.of(x.X, env, d+1)}}
 	case *ssa.Alloc:
 		return &nf{op: "call", name: "addr", args: []*nf{b.local(x, env, d+1)}}
@@ -277,6 +280,22 @@ func (b *nfBuilder) local(al *ssa.Alloc, env nfEnv, d int) *nf {
 					bad = true
 				}
 			}
+		case *ssa.IndexAddr:
+			// element of a local array (variadic arguments)
+			f := "[" + b.of(in.Index, env, d+1).String() + "]"
+			for _, r2 := range *in.Referrers() {
+				switch s := r2.(type) {
+				case *ssa.Store:
+					if s.Addr == ssa.Value(in) {
+						fields[f] = append(fields[f], b.of(s.Val, env, d+1))
+					}
+				case *ssa.UnOp, *ssa.DebugRef:
+				default:
+					bad = true
+				}
+			}
+		case *ssa.Slice:
+			// the array handed on as a slice: content is what was stored
 		case *ssa.UnOp, *ssa.DebugRef:
 		case ssa.CallInstruction:
 			if !calleeOnlyReads(in, al) {
